@@ -571,7 +571,30 @@ def op_grid_outer(rng, chinfo, dtype):
     return Case('grid_outer', ops, r, exp, ['wL', 'wR', 'p', 'p*'], chinfo.make_valid())
 
 
-OPS = [op_chain, op_multi_combine_split, op_gauge_total_charge, op_misc_elementwise, op_add_leg_eye_block, op_grid_outer, op_tensordot, op_outer, op_inner, op_trace, op_transpose, op_conj, op_lincomb, op_combine_split, op_take_slice,
+def op_nothing_to_do(rng, chinfo, dtype):
+    """operations in their 'nothing to do' corner still return the tensor - as an independent object (C03 mutates the result)"""
+    import tenpy.linalg.np_conserved as npc
+    rk = int(rng.integers(1, 4))
+    a = gen.random_array(rng, _legs(rng, chinfo, rk), dtype, labels=_labels(rk))
+    v = int(rng.integers(0, 7))
+    name, r = [('split_legs() without pipes', lambda: a.split_legs()),
+               ('split_legs([])', lambda: a.split_legs([])),
+               ('combine_legs([])', lambda: a.combine_legs([])),
+               ('transpose(identity)', lambda: a.transpose(list(range(rk)))),
+               ('astype(same dtype)', lambda: a.astype(a.dtype)),
+               ('squeeze() without trivial legs', lambda: a.squeeze() if not any(l.ind_len == 1 for l in a.legs) else None),
+               ('sort_legcharge(False, False)', lambda: a.sort_legcharge(False, False)[1] if chinfo.qnumber > 0 else None)][v]
+    try:
+        res = r()
+    except (ValueError, IndexError):
+        return None          # (some corners are documented errors: not the subject here)
+    if res is None or not isinstance(res, npc.Array):
+        return None
+    c = Case(f'nothing-to-do: {name}', [a], res, a.to_ndarray(), _labels(rk), a.qtotal.copy())
+    return c
+
+
+OPS = [op_chain, op_nothing_to_do, op_multi_combine_split, op_gauge_total_charge, op_misc_elementwise, op_add_leg_eye_block, op_grid_outer, op_tensordot, op_outer, op_inner, op_trace, op_transpose, op_conj, op_lincomb, op_combine_split, op_take_slice,
        op_getitem, op_getitem_oob, op_setitem, op_slice_getitem, op_setitem_slices, op_concatenate, op_scale_axis, op_permute,
        op_sort_legcharge, op_squeeze_addleg, op_norm, op_binary_scalar]
 
